@@ -688,3 +688,210 @@ Proof.
     destruct H as [_ H]. auto.
 Qed.
 
+Lemma spec_get_unfold m fi name fn b path :
+  nth_error (m_functions m) fi = Some (name, fn) ->
+  spec_get (to_rmod m) (mk_index fi (b :: path)) =
+  match nth_error (f_cards fn) b with
+  | None => SpErr (CardNotFound 0)
+  | Some card => match rget path 1 (to_rose card) with
+                 | SOk x => SpOk x
+                 | SMiss q => SpErr (CardNotFound q)
+                 end
+  end.
+Proof.
+  intros EF. unfold spec_get, spec_edit. cbn [to_rmod rm_fns mk_index ci_function ci_indices].
+  rewrite nth_error_map, EF. cbn [option_map rmodify body_rose rkids rlabel fst snd].
+  rewrite nth_error_map. destruct (nth_error (f_cards fn) b) as [card|]; cbn [option_map]; [|reflexivity].
+  pose proof (rmodify_get path 1 (to_rose card)) as G. destruct (rget path 1 (to_rose card)).
+  - destruct G as (r' & ->). reflexivity.
+  - rewrite G. reflexivity.
+Qed.
+
+Lemma mk_index_eta idx : mk_index (ci_function idx) (ci_indices idx) = idx.
+Proof. destruct idx; reflexivity. Qed.
+
+(* get_card: same card as the specification; on a miss the same error, except that a miss below
+   the top level is reported one level lower (the known_get_depth class) *)
+Theorem get_card_refines m idx :
+  match get_card m idx with
+  | ROk c => spec_get (to_rmod m) idx = SpOk (to_rose c)
+  | RErr e =>
+      match spec_get (to_rmod m) idx with
+      | SpErr (CardNotFound (S q)) => e = CardNotFound q
+      | SpErr e' => e = e'
+      | SpOk _ => False
+      end
+  | RPanic => False
+  end.
+Proof.
+  unfold get_card.
+  destruct (nth_error (m_functions m) (ci_function idx)) as [[name fn]|] eqn:EF.
+  2:{ unfold spec_get, spec_edit. cbn [to_rmod rm_fns]. rewrite nth_error_map, EF. reflexivity. }
+  unfold ci_begin. destruct (ci_indices idx) as [|b path] eqn:EI.
+  { unfold spec_get, spec_edit. cbn [to_rmod rm_fns]. rewrite nth_error_map, EF, EI. reflexivity. }
+  rewrite <- (mk_index_eta idx), EI. cbn [mk_index ci_function ci_indices].
+  change {| ci_function := ci_function idx; ci_indices := b :: path |} with (mk_index (ci_function idx) (b :: path)).
+  rewrite (spec_get_unfold m _ name fn b path EF), slice_tail.
+  destruct (nth_error (f_cards fn) b) as [card|]; [|reflexivity].
+  pose proof (descend_refines path 0 1 card) as H. destruct (descend path 0 card) as [c|e|]; auto.
+  - rewrite H. reflexivity.
+  - destruct H as (k & -> & H). rewrite H. reflexivity.
+Qed.
+
+Theorem get_card_ok_iff m idx c :
+  get_card m idx = ROk c <-> get_card_mut m idx = ROk c.
+Proof.
+  pose proof (get_card_refines m idx) as H1. pose proof (get_card_mut_refines m idx) as H2.
+  split; intros E; rewrite E in *.
+  - destruct (get_card_mut m idx) as [c'|e|]; [|rewrite H1 in H2; discriminate|contradiction].
+    rewrite H1 in H2. injection H2 as H2. apply to_rose_inj in H2. congruence.
+  - destruct (get_card m idx) as [c'|e|]; [| |contradiction].
+    + rewrite H2 in H1. injection H1 as H1. apply to_rose_inj in H1. congruence.
+    + rewrite H2 in H1. contradiction.
+Qed.
+
+(* ---- one call: the model refines the specification outside the known classes (all but swap/walk) *)
+
+Lemma step_refines_get m idx :
+  known_get_depth m (OpGet idx) = false ->
+  spec_step (to_rmod m) (OpGet idx) = (to_rmod m, abs_obs (snd (step m (OpGet idx)))) /\
+  fst (step m (OpGet idx)) = m.
+Proof.
+  intros K. split; [|reflexivity]. cbn [spec_step step snd]. f_equal.
+  pose proof (get_card_refines m idx) as H. unfold known_get_depth in K.
+  destruct (get_card m idx) as [c|e|]; [rewrite H; reflexivity| |contradiction].
+  destruct (spec_get (to_rmod m) idx) as [r|[| [|q] | |]]; try contradiction; try (subst; reflexivity).
+  discriminate.
+Qed.
+
+Lemma step_refines_get_mut m idx :
+  spec_step (to_rmod m) (OpGetMut idx) = (to_rmod m, abs_obs (snd (step m (OpGetMut idx)))) /\
+  fst (step m (OpGetMut idx)) = m.
+Proof.
+  split; [|reflexivity]. cbn [spec_step step snd]. f_equal.
+  pose proof (get_card_mut_refines m idx) as H.
+  destruct (get_card_mut m idx) as [c|e|]; [rewrite H; reflexivity|rewrite H; reflexivity|contradiction].
+Qed.
+
+Lemma step_refines_replace m idx x :
+  spec_step (to_rmod m) (OpReplace idx x) =
+  (to_rmod (fst (step m (OpReplace idx x))), abs_obs (snd (step m (OpReplace idx x)))).
+Proof.
+  cbn [spec_step step]. pose proof (replace_card_refines m idx x) as H.
+  destruct (replace_card m idx x) as [[m' old]|e|]; [rewrite H; reflexivity|rewrite H; reflexivity|contradiction].
+Qed.
+
+Lemma step_refines_remove m idx :
+  spec_step (to_rmod m) (OpRemove idx) =
+  (to_rmod (fst (step m (OpRemove idx))), abs_obs (snd (step m (OpRemove idx)))).
+Proof.
+  cbn [spec_step step]. pose proof (remove_card_refines m idx) as H.
+  destruct (remove_card m idx) as [[m' old]|e|]; [rewrite H; reflexivity|rewrite H; reflexivity|contradiction].
+Qed.
+
+Lemma step_refines_insert m idx x :
+  known_call_insert m (OpInsert idx x) = false ->
+  spec_step (to_rmod m) (OpInsert idx x) =
+  (to_rmod (fst (step m (OpInsert idx x))), abs_obs (snd (step m (OpInsert idx x)))).
+Proof.
+  intros K. cbn [spec_step step]. pose proof (insert_card_refines m idx x K) as H.
+  destruct (insert_card m idx x) as [[m' []]|e|]; [rewrite H; reflexivity|rewrite H; reflexivity|contradiction].
+Qed.
+
+Lemma step_refines_kids m idx upto :
+  spec_step (to_rmod m) (OpKids idx upto) =
+  (to_rmod (fst (step m (OpKids idx upto))), abs_obs (snd (step m (OpKids idx upto)))).
+Proof.
+  cbn [spec_step step fst snd]. f_equal. pose proof (get_card_mut_refines m idx) as H.
+  destruct (get_card_mut m idx) as [c|e|]; [|rewrite H; reflexivity|contradiction].
+  rewrite H. cbn [abs_obs]. rewrite to_rose_kids, map_length, (proj2 (children_agree c 0)).
+  f_equal. rewrite !map_map. apply map_ext. intros i.
+  rewrite <- to_rose_kids, <- get_child_refines. reflexivity.
+Qed.
+
+Lemma step_refines_replace_child m idx i x :
+  spec_step (to_rmod m) (OpReplaceChild idx i x) =
+  (to_rmod (fst (step m (OpReplaceChild idx i x))), abs_obs (snd (step m (OpReplaceChild idx i x)))).
+Proof.
+  cbn [spec_step step].
+  pose proof (with_card_mut_refines
+                (fun o : obs => match o with ObCard old => Some (to_rose old) | _ => None end) m idx
+                (fun parent => match replace_child parent i x with
+                               | ReplOk parent' old => ROk (parent', ObCard old)
+                               | ReplErr x0 => ROk (parent, ObChildErr x0)
+                               end)
+                (node_replace_child (to_rose x) i)) as H.
+  assert (Hk : k_refines (fun o : obs => match o with ObCard old => Some (to_rose old) | _ => None end)
+                 (fun parent => match replace_child parent i x with
+                               | ReplOk parent' old => ROk (parent', ObCard old)
+                               | ReplErr x0 => ROk (parent, ObChildErr x0)
+                               end)
+                 (node_replace_child (to_rose x) i) (length (ci_indices idx))).
+  { intros c. unfold k_refines_at. pose proof (node_replace_child_refines c i x) as R.
+    destruct (replace_child c i x); [exact R|]. destruct R as [-> R]. exact R. }
+  specialize (H Hk).
+  match goal with |- context [with_card_mut m idx ?k] => destruct (with_card_mut m idx k) as [[m' o]|e|] eqn:E end;
+    [|rewrite H; reflexivity|contradiction].
+  rewrite H.
+  (* which observation the continuation can have produced *)
+  assert (Ho : (exists old, o = ObCard old) \/ o = ObChildErr x).
+  { unfold with_card_mut in E.
+    destruct (nth_error (m_functions m) (ci_function idx)) as [[name fn]|]; [|discriminate].
+    destruct (ci_begin idx); [|discriminate]. destruct (nth_error (f_cards fn) n); [|discriminate].
+    destruct (slice (ci_indices idx) 1 (length (ci_indices idx))) as [path|]; [|discriminate].
+    match type of E with context [descend_mut path 1 c ?k] => destruct (descend_mut path 1 c k) as [[c' o']|?|] eqn:ED end;
+      try discriminate.
+    injection E as _ ->. clear - ED. revert c c' ED. generalize 1.
+    induction path as [|j path IH]; intros d c c'; cbn [descend_mut].
+    - pose proof (node_replace_child_refines c i x) as R. destruct (replace_child c i x).
+      + intros [= _ <-]. eauto.
+      + destruct R as [-> _]. intros [= _ <-]. auto.
+    - destruct (get_child_mut c j) as [[ch put]|]; [|discriminate].
+      match goal with |- context [descend_mut path (S d) ch ?k] => destruct (descend_mut path (S d) ch k) as [[ch' o'']|?|] eqn:E2 end;
+        try discriminate.
+      intros [= _ <-]. eapply IH; eauto. }
+  destruct Ho as [[old ->]| ->]; reflexivity.
+Qed.
+
+(* ---- witnesses for the known-finding classes ---- *)
+
+Definition wit_module : module :=
+  Module [] [([102%N], {| f_args := []; f_cards := [CScalarInt 1; CCall [103%N] [CScalarInt 2]] |})] [].
+
+(* A-25: swap_cards(i, i) succeeds and replaces the card by ScalarNil *)
+Lemma swap_same_refuted :
+  exists m i, fst (step m (OpSwap i i)) <> m /\ snd (step m (OpSwap i i)) = ObUnit /\
+              known_swap_same m (OpSwap i i) = true.
+Proof.
+  exists wit_module, (mk_index 0 [0]). split; [|split]; [|vm_compute; reflexivity..].
+  vm_compute. discriminate.
+Qed.
+
+(* A-26: insert_card beyond the end of a Call's argument list reports Ok and inserts nothing *)
+Lemma call_insert_refuted :
+  exists m idx x, step m (OpInsert idx x) = (m, ObUnit) /\
+                  spec_step (to_rmod m) (OpInsert idx x) = (to_rmod m, RoErr (CardNotFound 1)) /\
+                  known_call_insert m (OpInsert idx x) = true.
+Proof.
+  exists wit_module, (mk_index 0 [1; 2]), CAbort. repeat split; vm_compute; reflexivity.
+Qed.
+
+(* get_card reports a nested miss one level too low; get_card_mut reports the level of the index *)
+Lemma get_depth_refuted :
+  exists m idx, get_card m idx = RErr (CardNotFound 0) /\ get_card_mut m idx = RErr (CardNotFound 1) /\
+                known_get_depth m (OpGet idx) = true.
+Proof.
+  exists wit_module, (mk_index 0 [1; 5]). repeat split; vm_compute; reflexivity.
+Qed.
+
+(* remove after insert does not restore a fixed slot: insert overwrote the old child *)
+Lemma remove_insert_fixed_refuted :
+  exists m idx x m1 m2 y,
+    insert_card m idx x = ROk (m1, tt) /\ remove_card m1 idx = ROk (m2, y) /\ y = x /\ m2 <> m.
+Proof.
+  exists (Module [] [([102%N], {| f_args := []; f_cards := [CUn UNot (CScalarInt 1)] |})] []),
+    (mk_index 0 [0; 0]), CAbort.
+  eexists. eexists. eexists. split; [vm_compute; reflexivity|]. split; [vm_compute; reflexivity|].
+  split; [reflexivity|]. discriminate.
+Qed.
+
